@@ -831,7 +831,6 @@ func exploreCompactions(c *vlib.Ctx, scratch string, idx *int64, via string, nfi
 	defer e.comp.Close()
 	nv := len(vs.specs)
 	choice := make([]int, nfiles)
-	var done int64
 	for {
 		ok := true
 		if maxTombFiles >= 0 {
@@ -847,7 +846,7 @@ func exploreCompactions(c *vlib.Ctx, scratch string, idx *int64, via string, nfi
 			*idx++
 		}
 		if ok && c.Mine(*idx) {
-			if done++; done%16 == 0 && c.Expired() {
+			if c.Expired() {
 				c.Cap("budget expired during " + what)
 				return false
 			}
@@ -1351,7 +1350,7 @@ func TestCheck(t *testing.T) {
 			"[C] cache: 1-2 WriteMulti batches, each giving a Float and an Integer key any subset of {1..N} (not both empty) in ascending or descending order, snapshotted as the engine does and written with Compactor.WriteSnapshot, plus NewCacheKeyIterator with block size 1,2,3; " +
 			"[R] roll-over at the real 65535 blocks-per-key limit: two files with n in {65534,65535,65536,65537,70000} one-point blocks of one key in total, with/without a following second key, x {CompactFast, CompactFull ppb=1, CompactFull ppb=1 with a tombstone forcing the decode path (quick: n in {65535,65536} only for this last variant)}. " +
 			"QUICK: [S] pairs N=2 via FileStore.Open in one directory (outputs also cross-read with TSMReader BlockIterator+ReadAll for ppb=2); [S] pairs N=4 with a tombstone set on at most one file; [K] pairs N=2; [C] N=3; [R]. " +
-			"THOROUGH: [S] pairs N=3 via FileStore.Open; [S] pairs N=4 and N=5 with all 6x6 tombstone combinations; [S] triples N=3; [S] triples N=4 without tombstones; [K] pairs N=3 with tombstones on <=1 file; [C] N=4; [R]. Except where noted inputs are real TSMReaders opened once per variant and handed to a FileStore in path order. " +
+			"THOROUGH (in this order): [S] pairs N=3 via FileStore.Open; [C] N=4; [K] pairs N=3 with tombstones on <=1 file; [S] pairs N=4 with all 6x6 tombstone combinations; [R]; [S] triples N=3 with a tombstone set on at most one file; [S] triples N=4 without tombstones; [S] pairs N=5 with all 6x6 tombstone combinations (largest, last: the budget may cap it). Except where noted inputs are real TSMReaders opened once per variant and handed to a FileStore in path order. " +
 			"One evaluation = one compaction/snapshot run, its outputs parsed from the file bytes and compared with the newest-file-wins merge minus tombstones; non-trivial = runs whose inputs hold overlapping blocks of one key in two files or a partially tombstoned block (distinct by construction)",
 		Assumptions: []string{
 			"a point is live in a file when no tombstone range of that file covers it; where the newest file holding a timestamp has it tombstoned but an older file holds it live the statement is silent and both answers are accepted",
@@ -1380,9 +1379,9 @@ func TestCheck(t *testing.T) {
 				f := os.Getenv("VERIF_C04_PHASES")
 				return f == "" || strings.Contains(f, ph)
 			}
-			heavyOK := func() bool { // a heavy roll-over case is only started in the first 40% of the default budget
+			heavyOK := func() bool { // a heavy roll-over case is only started in the first ~60% (quick) / 40% (thorough) of the default budget
 				if c.Quick() {
-					return time.Since(t0) < 18*time.Second
+					return time.Since(t0) < 28*time.Second
 				}
 				return time.Since(t0) < 320*time.Second
 			}
@@ -1399,9 +1398,9 @@ func TestCheck(t *testing.T) {
 				(!on("K") || exploreCompactions(c, scratch, &idx, viaPooled, 2, spaceTwoKeys(3), 1, "[K] pairs N=3 (tombstones on <=1 file)")) &&
 				(!on("S") || exploreCompactions(c, scratch, &idx, viaPooled, 2, spaceSameLayout(4), -1, "[S] pairs N=4")) &&
 				(!on("R") || exploreRollover(c, &idx, heavyOK)) &&
-				(!on("S") || exploreCompactions(c, scratch, &idx, viaPooled, 2, spaceSameLayout(5), -1, "[S] pairs N=5")) &&
-				(!on("S") || exploreCompactions(c, scratch, &idx, viaPooled, 3, spaceSameLayout(3), -1, "[S] triples N=3")) &&
-				(!on("S") || exploreCompactions(c, scratch, &idx, viaPooled, 3, spaceSameLayout(4), 0, "[S] triples N=4 without tombstones"))
+				(!on("S") || exploreCompactions(c, scratch, &idx, viaPooled, 3, spaceSameLayout(3), 1, "[S] triples N=3 (tombstones on <=1 file)")) &&
+				(!on("S") || exploreCompactions(c, scratch, &idx, viaPooled, 3, spaceSameLayout(4), 0, "[S] triples N=4 without tombstones")) &&
+				(!on("S") || exploreCompactions(c, scratch, &idx, viaPooled, 2, spaceSameLayout(5), -1, "[S] pairs N=5"))
 		},
 		Replay: func(c *vlib.Ctx, raw json.RawMessage) (bool, string) {
 			var cs Case
